@@ -413,51 +413,76 @@ def _yaml(ctx, repo, m):
         ctx.violate("R-LOOPCARRY", construct, f"{m.rel}:{n.lineno}",
                     f"`{v}` is read in the per-spec loop on a path with no definition in the same iteration (it is only "
                     f"conditionally assigned in the loop): an entry inherits the value of an earlier entry", key=f"loopcarry:{v}")
-    # appended dict
-    apps = [c for s in lp.body for c in ast.walk(s) if isinstance(c, ast.Call) and call_name(c).endswith(".append")
-            and c.args and isinstance(c.args[0], ast.Dict)]
-    if len(apps) != 1:
-        ctx.undecided("R-TABLE/yaml", construct, where, "expected one configs.append({...}) in the loop", key="append")
+    # one iteration of the per-spec loop on terms (bsa.sym): exactly one dict is appended, its 12 values are the
+    # spec fields (MODE / TRANSPORT_TYPE upper-cased, transport defaulting to tcp)
+    from .. import sym
+    spec_name = lp.target.id if isinstance(lp.target, ast.Name) else "spec"
+    SPEC = sym.S(spec_name)
+    it = sym.Interp(fold=lambda e: repo.fold(m, e), log_calls=True)
+    try:
+        ypaths = it.loop_body(lp, {spec_name: SPEC})
+    except sym.TooMany:
+        ctx.undecided("R-TABLE/yaml", construct, where, "too many paths in the per-spec loop", key="append")
         return
-    ac = apps[0]
-    target = call_name(ac)[:-7]
-    anode = [x for x in body_nodes if any(c is ac for c in node_calls(cfg.nodes[x]))]
-    once = bool(anode) and must_pass(cfg, lambda n: n.id in anode, start=[t for t, l in cfg.succ[lnode.id] if l == "T"][0],
-                                     targets={lnode.id})
-    ctx.decide(once, "R-MUSTPASS/yaml-append", construct, f"{m.rel}:{ac.lineno}",
-               "one dict appended per spec entry on every path", "a spec entry can be skipped (no append on some path)",
-               key="append_once")
-    rets = [ast.unparse(n.value) for n in ast.walk(fn) if isinstance(n, ast.Return) and n.value is not None]
-    ctx.decide(rets == [target], "R-FLOW/yaml-return", construct, where, f"returns the list `{target}`",
-               f"returns {rets}, not the list the entries are appended to", key="return", nontrivial=False)
-    d = ac.args[0]
-    keys = {k.value: v for k, v in zip(d.keys, d.values) if isinstance(k, ast.Constant)}
-    ctx.decide(set(keys) == set(KEY_FIELD), "R-TABLE/yaml", construct, f"{m.rel}:{ac.lineno}", "all 12 keys produced",
-               f"produced keys differ from the 12 configuration keys: missing {sorted(set(KEY_FIELD) - set(keys))}, "
-               f"extra {sorted(set(keys) - set(KEY_FIELD))}", key="keys")
-    for K, src in YAML_SOURCE.items():
-        if K not in keys:
+    done = [p_ for p_ in ypaths if p_.term in ("fall", "continue")]
+    if not done:
+        ctx.undecided("R-TABLE/yaml", construct, where, "no completing path in the per-spec loop", key="append")
+        return
+    GET = ("call", ("attr", SPEC, "get"), ("transport_type",), ())
+    SUBT = ("sub", SPEC, "transport_type")
+    targets = set()
+
+    def expected(src):
+        return it.ev(ast.parse(src.replace("spec[", f"{spec_name}["), mode="eval").body, sym.PathState({spec_name: SPEC}, [], []))
+    for p_ in done:
+        apps = [e[1] for e in p_.effects if e[0] == "ecall" and isinstance(e[1], tuple) and e[1][0] == "call" and isinstance(e[1][1], tuple)
+                and e[1][1][0] == "attr" and e[1][1][2] == "append" and len(e[1][2]) == 1 and isinstance(e[1][2][0], tuple)
+                and e[1][2][0][0] == "dict"]
+        ctx.decide(len(apps) == 1, "R-MUSTPASS/yaml-append", construct, f"{m.rel}:{lp.lineno}",
+                   "one dict appended per spec entry on every path",
+                   f"a spec entry is appended {len(apps)} time(s) on some path (skipped or duplicated)", key="append_once")
+        if len(apps) != 1:
             continue
-        v = keys[K]
-        txt = ast.unparse(v)
-        if K == "MODE":
-            ok = txt == f"{src}.upper()"
-            bad = f"MODE is `{txt}`, expected the spec's mode upper-cased"
-        elif K == "TRANSPORT_TYPE":
-            ok = txt.endswith(".upper()") and "transport_type" in txt
-            bad = f"TRANSPORT_TYPE is `{txt}`, expected the (defaulted) transport type upper-cased"
-        else:
-            ok = txt == src
-            bad = f"{K} is `{txt}`, expected {src} unchanged"
-        ctx.decide(ok, "R-TABLE/yaml", construct, f"{m.rel}:{v.lineno}", f"{K} <- {txt}", bad, key=f"yaml:{K}")
-    # transport default is "tcp"
-    tdefs = [n for n in ast.walk(fn) if isinstance(n, ast.Assign) and isinstance(n.targets[0], ast.Name)
-             and n.targets[0].id == "transport_type" and isinstance(n.value, ast.Constant)]
-    ctx.decide(bool(tdefs) and all(n.value.value in ("tcp", "TCP") for n in tdefs), "R-TABLE/yaml", construct, where,
-               "transport defaults to TCP", f"transport default is {[n.value.value for n in tdefs]}", key="default_tcp")
-    # application constants resolved by name through the variables dictionary
-    src = ast.unparse(lp)
-    ok = "variables_dictionary[vendor_id]" in src and "variables_dictionary[app_id]" in src
+        targets.add(sym.show(apps[0][1][1]))
+        keys = dict(apps[0][2][0][1])
+        ctx.decide(set(keys) == set(KEY_FIELD), "R-TABLE/yaml", construct, f"{m.rel}:{lp.lineno}", "all 12 keys produced",
+                   f"produced keys differ from the 12 configuration keys: missing {sorted(set(KEY_FIELD) - set(keys))}, "
+                   f"extra {sorted(map(str, set(keys) - set(KEY_FIELD)))}", key="keys")
+        tcond = [tv for c, tv in p_.conds if c in (GET, SUBT, ("cmp", "In", "transport_type", SPEC))]
+        for K, src in YAML_SOURCE.items():
+            if K not in keys:
+                continue
+            v = keys[K]
+            txt = sym.show(v)
+            upper = lambda t: ("call", ("attr", t, "upper"), (), ())
+            if K == "MODE":
+                ok = v == upper(expected(src))
+                bad = f"MODE is `{txt}`, expected the spec's mode upper-cased"
+            elif K == "TRANSPORT_TYPE":
+                if tcond == [True]:
+                    ok = v in (upper(SUBT), upper(GET))
+                elif tcond == [False]:
+                    ok = v in (upper("tcp"), "TCP")
+                else:
+                    ok = v in (upper(("or", (GET, "tcp"))), upper(("call", ("attr", SPEC, "get"), ("transport_type", "tcp"), ())))
+                bad = f"TRANSPORT_TYPE is `{txt}` (transport given: {tcond}), expected the given transport type, or tcp, upper-cased"
+            else:
+                ok = v == expected(src)
+                bad = f"{K} is `{txt}`, expected {src} unchanged"
+            ctx.decide(ok, "R-TABLE/yaml", construct, f"{m.rel}:{lp.lineno}", f"{K} <- {txt[:60]}", bad, key=f"yaml:{K}")
+    rets = [ast.unparse(n.value) for n in ast.walk(fn) if isinstance(n, ast.Return) and n.value is not None]
+    ctx.decide(len(targets) == 1 and rets == sorted(targets), "R-FLOW/yaml-return", construct, where, f"returns the list `{sorted(targets)}`",
+               f"returns {rets}, not the list the entries are appended to ({sorted(targets)})", key="return", nontrivial=False)
+    # application constants resolved by name through the variables dictionary (inner loop, on terms)
+    inner = [x for x in walk_no_nested(lp) if isinstance(x, ast.For) and x is not lp and isinstance(x.target, ast.Name)]
+    ok = False
+    for il in inner:
+        A = sym.S(il.target.id)
+        for p_ in sym.Interp().loop_body(il, {il.target.id: A}):
+            w = {e[2]: e[3] for e in p_.effects if e[0] == "setitem" and e[1] == A}
+            vd = lambda k: isinstance(w.get(k), tuple) and w[k][0] == "sub" and w[k][2] == ("sub", A, k) and \
+                sym.show(w[k][1]) in ("variables_dictionary",)
+            ok = vd("vendor_id") and vd("app_id")
     ctx.decide(ok, "R-FLOW/yaml-apps", construct, f"{m.rel}:{lp.lineno}", "application constants resolved by name",
                "application vendor_id/app_id names are not resolved through the variables dictionary", key="apps",
                nontrivial=False)
